@@ -117,7 +117,7 @@ def run(ck):
             continue
         seen.add(k2)
         ck.report(case, oracle=key, key="memory:" + k2, what=what)
-    if not fails and not ok:
+    if not ck.violations and not ok:
         ck.report(dict(log=ck.proof_res["log"][-3000:]), unchecked="Properties_C10.vo (incl. the fact tables regenerated from the headers)", what="proof obligations of C10 no longer check")
     ck.cov["trusted_base"] = vlib.TRUSTED_BASE_COMMON + ["AddressSanitizer/UBSan (g++ 12) and valgrind 3.19 memcheck as observers", "harness/translate_facts.py (regex-level reading of the headers)",
                                                         "the action lists of Lifetime.v are hand transcriptions of the code fragments"]
